@@ -128,7 +128,10 @@ fn main() {
         "c01" => {
             let cfg = StreamCfg { positions: args.budget(400_000, 4_000_000), max_plies: 400, max_half: 4095, max_full: 30000 };
             let (pe, pd) = if args.thorough { (40, 3) } else { (60, 2) };
-            stream::run(&args, &cfg, &mut rep, &mut |p, rep, rng| c01::check(p, rep, rng, pe, pd));
+            stream::run_carried(&args, &cfg, &mut rep, &mut |p, rep, rng, carried| {
+                c01::check(p, rep, rng, pe, pd);
+                if let Some(bb) = carried { c01::check_carried(p, bb, rep); }
+            });
         }
         "c02" => {
             let cfg = StreamCfg { positions: args.budget(300_000, 3_000_000), max_plies: 600, max_half: 4095, max_full: 30000 };
@@ -148,7 +151,17 @@ fn main() {
         "c04" => c04::run(&args, &mut rep),
         "c05" => {
             let cfg = StreamCfg { positions: args.budget(200_000, 3_000_000), max_plies: 400, max_half: 4095, max_full: 30000 };
-            stream::run(&args, &cfg, &mut rep, &mut |p, rep, rng| c05::check(p, rep, rng));
+            stream::run_carried(&args, &cfg, &mut rep, &mut |p, rep, rng, carried| {
+                c05::check(p, rep, rng);
+                if let Some(bb) = carried {
+                    // the board carried along the walk through its own make()
+                    rep.count("carried_board_positions");
+                    let (cur, valid) = (bb.is_current_in_check(), bb.is_valid());
+                    if cur != p.in_check(p.wtm) || !valid {
+                        rep.violation("carried-board-check-state", format!("board carried to {} reports in_check={} valid={}", p.to_fen(), cur, valid), monlib::json!({"kind":"c05","fen":p.to_fen()}));
+                    }
+                }
+            });
             // dedicated check synthesiser + mate/stalemate hunting in low material
             let mut rng = gen::rng(args.seed, args.shard, 5);
             let n = args.budget(200_000, 3_000_000) / args.nshards.max(1);
@@ -168,7 +181,45 @@ fn main() {
         "c06" => {
             let cfg = StreamCfg { positions: args.budget(160_000, 2_000_000), max_plies: 300, max_half: 4095, max_full: 30000 };
             let mut maps = c06::Maps::default();
-            stream::run(&args, &cfg, &mut rep, &mut |p, rep, rng| c06::check(p, rep, rng, &mut maps));
+            // running incremental hashes along the whole walk (as the search threads them down the tree)
+            let mut running: Option<(String, u64, u64)> = None;
+            stream::run_carried(&args, &cfg, &mut rep, &mut |p, rep, rng, carried| {
+                c06::check(p, rep, rng, &mut maps);
+                if let Some(bb) = carried {
+                    let fen = p.to_fen();
+                    let (h, ph) = (bb.calculate_zobrist_hash(), bb.calculate_zobrist_pawn_hash());
+                    rep.count("carried_board_positions");
+                    if let Ok(fresh) = adapter::load(p) {
+                        if (fresh.calculate_zobrist_hash(), fresh.calculate_zobrist_pawn_hash()) != (h, ph) {
+                            rep.violation("carried-board-hash-differs-from-fen-load", format!("board carried to {} hashes {:x}, the same position loaded from FEN {:x}", fen, h, fresh.calculate_zobrist_hash()), monlib::json!({"kind":"c06","fen":fen}));
+                        }
+                    }
+                    // continue the running xor if this position follows the previous one by one move
+                    let mut next = None;
+                    if let Some((prev_fen, rh, rph)) = running.take() {
+                        if let Ok(prev) = refchess::Pos::from_fen(&prev_fen) {
+                            if let Some(m) = prev.legal_moves().into_iter().find(|m| prev.make(*m) == *p) {
+                                if let Ok(pb) = adapter::load(&prev) {
+                                    if let Some(mv) = adapter::find_move(&pb, &m.uci()) {
+                                        let (dx, dp) = inkayaku_board::Bitboard::zobrist_xor(mv);
+                                        let (nh, nph) = (rh ^ dx, rph ^ dp);
+                                        rep.count("running_hash_steps");
+                                        if (nh, nph) != (h, ph) {
+                                            rep.violation("running-incremental-hash-drifts", format!("after {} from {}: running hash {:x}/{:x}, recomputed {:x}/{:x}", m.uci(), prev_fen, nh, nph, h, ph), monlib::json!({"kind":"c06","fen":prev_fen,"move":m.uci()}));
+                                            next = Some((fen.clone(), h, ph));
+                                        } else {
+                                            next = Some((fen.clone(), nh, nph));
+                                        }
+                                    }
+                                }
+                            }
+                        }
+                    }
+                    running = Some(next.unwrap_or((fen, h, ph)));
+                } else {
+                    running = None;
+                }
+            });
             rep.add("distinct_position_keys", maps.key_to_hash.len() as u64);
         }
         "c12" => {
